@@ -413,9 +413,7 @@ Proof.
   cbn [String.length] in Hw. rewrite slen_app in Hw.
   destruct b as [|x b]; cbn [fst]; [cbn; lia|].
   destruct (Ascii.eqb x "<") eqn:Hx.
-  2:{ assert (Hp : forall (A : Type) (u v : A), match x with "<"%char => u | _ => v end = v).
-      { intros A u v. clear -Hx. destruct x as [[] [] [] [] [] [] [] []]; try reflexivity. discriminate. }
-      destruct x as [[] [] [] [] [] [] [] []]; cbn [fst String.length] in *; try lia. discriminate. }
+  2:{ destruct x as [[] [] [] [] [] [] [] []]; cbn [fst String.length] in *; try lia. discriminate. }
   apply Ascii.eqb_eq in Hx. subst x.
   destruct b as [|c2 r2]; cbn [fst String.length] in *; [lia|].
   destruct (is_alpha c2); cbn [fst String.length] in *; [|lia].
@@ -778,3 +776,195 @@ Qed.
 Lemma go_type_total cfg t : c_key_panic cfg = false -> c_dup_panic cfg = false ->
   go_type_result cfg t = Some (go_type t).
 Proof. intros H1 H2. unfold go_type_result, type_panics. now rewrite H1, H2. Qed.
+
+(* ---------- the parser accepts nothing but printed signatures with white space between tokens ---------- *)
+Lemma unspace_app a b : unspace (a ++ b) = unspace a ++ unspace b.
+Proof. induction a as [|c a IH]; cbn; [reflexivity|]. destruct (is_ws c); cbn; now rewrite IH. Qed.
+
+Lemma unspace_skip_ws s : unspace (skip_ws s) = unspace s.
+Proof. induction s as [|c s IH]; cbn; [reflexivity|]. destruct (is_ws c) eqn:E; cbn; [exact IH|now rewrite E]. Qed.
+
+Lemma alnum_not_ws c : is_alnum_ c = true -> @is_ws c = false.
+Proof. ascii_cases c; vm_compute; congruence. Qed.
+
+Lemma unspace_alnum a : all_chars is_alnum_ a = true -> unspace a = a.
+Proof.
+  induction a as [|c a IH]; cbn; intro H; [reflexivity|]. apply andb_prop in H as [Hc Ha].
+  now rewrite (alnum_not_ws c Hc), IH.
+Qed.
+
+Lemma unspace_ident v : is_ident v = true -> unspace v = v.
+Proof.
+  intro H. destruct (is_ident_inv v H) as (c & r & -> & Hc & Hr). apply unspace_alnum.
+  cbn. now rewrite (alpha_alnum c Hc), Hr.
+Qed.
+
+Lemma unspace_struct_name v : is_struct_name v = true -> unspace v = v.
+Proof.
+  intro H. apply is_struct_name_shape in H as [H|(a & b & -> & Ha & Hb)]; [now apply unspace_ident|].
+  rewrite !unspace_app, (unspace_ident a Ha), (unspace_ident b Hb). reflexivity.
+Qed.
+
+Lemma strip_prefix_spec m s r : strip_prefix m s = Some r -> s = m ++ r.
+Proof.
+  revert s; induction m as [|a m IH]; cbn; intros s H; [now inversion H|].
+  destruct s as [|b s]; [discriminate|]. destruct (Ascii.eqb a b) eqn:E; [|discriminate].
+  apply Ascii.eqb_eq in E. subst b. now rewrite (IH s H).
+Qed.
+
+Lemma atom_canon m s n r : fst (@atom ty m s) = Ok n r -> unspace s = unspace m ++ unspace r.
+Proof.
+  unfold atom. destruct (strip_prefix m (skip_ws s)) as [r'|] eqn:E; cbn [fst]; [|discriminate].
+  intro H. inversion H; subst. apply strip_prefix_spec in E.
+  rewrite <- unspace_skip_ws, E. apply unspace_app.
+Qed.
+
+Lemma ident_canon s n r : fst (ident s) = Ok n r ->
+  exists v, n = NTerm v /\ is_ident v = true /\ unspace s = v ++ unspace r.
+Proof.
+  unfold ident, token1. destruct (skip_ws s) as [|c x] eqn:Es; cbn [fst]; [discriminate|].
+  destruct (is_alpha c) eqn:Hc; cbn [fst]; [|discriminate].
+  destruct (span is_alnum_ x) as [a b] eqn:E. cbn [fst]. intro H. inversion H; subst.
+  apply span_spec in E as (Ex & Ha & _). rewrite all_chars_same in Ha.
+  assert (Hid : is_ident (String c a) = true) by (cbn; now rewrite Hc, Ha).
+  exists (String c a). repeat split; [assumption|].
+  rewrite <- unspace_skip_ws, Es, Ex. change (String c (a ++ r)) with (String c a ++ r).
+  rewrite unspace_app. now rewrite (unspace_ident _ Hid).
+Qed.
+
+Lemma struct_name_canon s n r : fst (struct_name s) = Ok n r ->
+  exists v, n = NTerm v /\ is_struct_name v = true /\ unspace s = v ++ unspace r.
+Proof.
+  intro H. destruct (struct_name_out s n r H) as (v & -> & Hv). exists v. repeat split; [assumption|].
+  rewrite <- (unspace_struct_name v Hv), <- unspace_app, <- unspace_skip_ws. f_equal.
+  revert H. unfold struct_name. destruct (skip_ws s) as [|c x]; cbn [fst]; [discriminate|].
+  destruct (is_alpha c) eqn:Hc; cbn [fst]; [|discriminate].
+  destruct (span is_alnum_ x) as [a b] eqn:E. apply span_spec in E as (-> & _ & _).
+  assert (Hdone : forall r', (Ok (NTerm (String c a)) b : res snode) = Ok (NTerm v) r' -> String c (a ++ b) = v ++ r').
+  { intros r' H. inversion H; subst. reflexivity. }
+  destruct b as [|y b]; cbn [fst]; [apply Hdone|].
+  destruct y as [[] [] [] [] [] [] [] []]; cbn [fst]; try apply Hdone.
+  destruct b as [|c2 r2]; cbn [fst]; [apply Hdone|].
+  destruct (is_alpha c2) eqn:Hc2; cbn [fst]; [|apply Hdone].
+  destruct (span is_alnum_ r2) as [a2 b2] eqn:E2. apply span_spec in E2 as (-> & _ & _).
+  destruct b2 as [|z b3]; cbn [fst]; [apply Hdone|].
+  destruct z as [[] [] [] [] [] [] [] []]; cbn [fst]; try apply Hdone.
+  intro H. inversion H; subst. cbn. f_equal. rewrite !sapp_assoc. cbn. now rewrite !sapp_assoc.
+Qed.
+
+Lemma scalar_of_letter_spec l sc : scalar_of_letter l = Some sc -> l = scalar_letter sc.
+Proof.
+  unfold scalar_of_letter.
+  repeat match goal with
+         | |- context [String.eqb ?a ?b] => destruct (String.eqb_spec a b); [intro H; inversion H; subst; reflexivity|]
+         end.
+  discriminate.
+Qed.
+
+Lemma basic_canon s n r t : fst (basic_type s) = Ok n r -> extract_value (NList [n]) = Some t ->
+  unspace s = print t ++ unspace r.
+Proof.
+  intros H Ht. unfold basic_type in H. apply por_inv in H as (p & m & Hin & Hp & ->).
+  apply in_map_iff in Hin as (l & <- & Hl).
+  pose proof (atom_canon l s m r Hp) as Hc.
+  unfold atom in Hp. destruct (strip_prefix l (skip_ws s)); cbn [fst] in Hp; [|discriminate].
+  inversion Hp; subst. cbn in Ht. destruct (scalar_of_letter l) as [sc|] eqn:E; [|discriminate].
+  inversion Ht; subst. apply scalar_of_letter_spec in E. subst l. rewrite Hc. f_equal.
+  destruct sc; reflexivity.
+Qed.
+
+Lemma members_canon (d : sparser) :
+  (forall s n r t, fst (d s) = Ok n r -> extract_value n = Some t -> unspace s = print t ++ unspace r) ->
+  forall s xs r ts, many_ok d s xs r -> extract_types xs = Some ts -> unspace s = members_str ts ++ unspace r.
+Proof.
+  intros Hd s xs r ts Hm. revert ts. induction Hm as [s|s x s1 xs r Hx Hm IH]; intros ts Hts.
+  - inversion Hts; subst. reflexivity.
+  - cbn in Hts. destruct (extract_value x) as [t|] eqn:Ex; [|discriminate].
+    destruct (extract_types xs) as [ts'|]; [|discriminate]. inversion Hts; subst.
+    rewrite members_str_cons, sapp_assoc, <- (IH ts' eq_refl). exact (Hd _ _ _ _ Hx Ex).
+Qed.
+
+Lemma names_canon s ms r names : many_ok member_p s ms r -> extract_names ms = Some names ->
+  forallb is_ident names = true /\ unspace s = names_str names ++ unspace r.
+Proof.
+  intro Hm. revert names. induction Hm as [s|s x s1 xs r Hx Hm IH]; intros names Hn.
+  - inversion Hn; subst. split; reflexivity.
+  - unfold member_p in Hx. apply pand_inv in Hx as (ns & Hand & ->).
+    apply and_ok_cons_inv in Hand as (x1 & u1 & ns1 & -> & H1 & Hand).
+    apply and_ok1 in Hand as (x2 & -> & H2).
+    apply ident_canon in H2 as (v & -> & Hv & Hc). apply atom_canon in H1.
+    cbn in Hn. destruct (extract_names xs) as [vs|]; [|discriminate]. inversion Hn; subst.
+    destruct (IH vs eq_refl) as [Hvs Hrest]. split; [cbn; now rewrite Hv, Hvs|].
+    rewrite names_str_cons, H1, Hc, Hrest. cbn. now rewrite sapp_assoc.
+Qed.
+
+Lemma combine_map_fst {A B} (l : list A) (l' : list B) : List.length l = List.length l' -> map fst (combine l l') = l.
+Proof. revert l'; induction l as [|a l IH]; intros [|b l'] H; cbn in *; try discriminate; [reflexivity|]. f_equal. apply IH. lia. Qed.
+Lemma combine_map_snd {A B} (l : list A) (l' : list B) : List.length l = List.length l' -> map snd (combine l l') = l'.
+Proof. revert l'; induction l as [|a l IH]; intros [|b l'] H; cbn in *; try discriminate; [reflexivity|]. f_equal. apply IH. lia. Qed.
+
+Lemma decl_canon f : forall s n r t, fst (decl f s) = Ok n r -> extract_value n = Some t ->
+  unspace s = print t ++ unspace r.
+Proof.
+  induction f as [|f IH]; intros s n r t H Ht; [discriminate|].
+  rewrite decl_S in H. apply por_inv in H as (p & m & Hin & Hp & ->).
+  cbn [In] in Hin. destruct Hin as [<-|[<-|[<-|[<-|[<-|[]]]]]].
+  - now apply (basic_canon s m r t).
+  - unfold map_type in Hp. apply pand_inv in Hp as (ns & Hand & ->).
+    apply and_ok_cons_inv in Hand as (x1 & s1 & ns1 & -> & H1 & Hand).
+    apply and_ok_cons_inv in Hand as (x2 & s2 & ns2 & -> & H2 & Hand).
+    apply and_ok_cons_inv in Hand as (x3 & s3 & ns3 & -> & H3 & Hand).
+    apply and_ok1 in Hand as (x4 & -> & H4).
+    cbn in Ht.
+    destruct (extract_value x2) as [a|] eqn:Ea; [|discriminate].
+    destruct (extract_value x3) as [b|] eqn:Eb; [|discriminate].
+    inversion Ht; subst.
+    rewrite (atom_canon _ _ _ _ H1), (IH _ _ _ _ H2 Ea), (IH _ _ _ _ H3 Eb), (atom_canon _ _ _ _ H4).
+    cbn. now rewrite !sapp_assoc.
+  - unfold array_type in Hp. apply pand_inv in Hp as (ns & Hand & ->).
+    apply and_ok_cons_inv in Hand as (x1 & s1 & ns1 & -> & H1 & Hand).
+    apply and_ok_cons_inv in Hand as (x2 & s2 & ns2 & -> & H2 & Hand).
+    apply and_ok1 in Hand as (x3 & -> & H3).
+    cbn in Ht. destruct (extract_value x2) as [a|] eqn:Ea; [|discriminate]. inversion Ht; subst.
+    rewrite (atom_canon _ _ _ _ H1), (IH _ _ _ _ H2 Ea), (atom_canon _ _ _ _ H3).
+    cbn. now rewrite !sapp_assoc.
+  - unfold struct_type in Hp. apply pand_inv in Hp as (ns & Hand & ->).
+    apply and_ok_cons_inv in Hand as (x1 & s1 & ns1 & -> & H1 & Hand).
+    apply and_ok_cons_inv in Hand as (x2 & s2 & ns2 & -> & H2 & Hand).
+    apply and_ok_cons_inv in Hand as (x3 & s3 & ns3 & -> & H3 & Hand).
+    apply and_ok_cons_inv in Hand as (x4 & s4 & ns4 & -> & H4 & Hand).
+    apply and_ok_cons_inv in Hand as (x5 & s5 & ns5 & -> & H5 & Hand).
+    apply and_ok_cons_inv in Hand as (x6 & s6 & ns6 & -> & H6 & Hand).
+    apply and_ok1 in Hand as (x7 & -> & H7).
+    unfold list_type in H2. apply kleene_chain in H2 as (xs & -> & Hxs).
+    apply struct_name_canon in H5 as (name & -> & Hname & Hc5).
+    unfold member_list in H6. fold member_p in H6. apply kleene_chain in H6 as (ms & -> & Hms).
+    cbn in Ht.
+    destruct (extract_types xs) as [ts|] eqn:Ets; [|discriminate].
+    destruct (extract_names ms) as [names|] eqn:Ens; [|discriminate].
+    destruct (Nat.eqb (List.length ts) (List.length names)) eqn:El; [|discriminate].
+    apply Nat.eqb_eq in El. inversion Ht; subst.
+    rewrite print_struct, combine_map_fst, combine_map_snd by lia.
+    destruct (names_canon _ _ _ _ Hms Ens) as [_ Hc6].
+    rewrite (atom_canon _ _ _ _ H1), (members_canon (decl f) IH _ _ _ _ Hxs Ets),
+            (atom_canon _ _ _ _ H3), (atom_canon _ _ _ _ H4), Hc5, Hc6, (atom_canon _ _ _ _ H7).
+    cbn. rewrite !sapp_assoc. cbn. now rewrite !sapp_assoc.
+  - unfold tuple_type in Hp. apply pand_inv in Hp as (ns & Hand & ->).
+    apply and_ok_cons_inv in Hand as (x1 & s1 & ns1 & -> & H1 & Hand).
+    apply and_ok_cons_inv in Hand as (x2 & s2 & ns2 & -> & H2 & Hand).
+    apply and_ok1 in Hand as (x3 & -> & H3).
+    unfold list_type in H2. apply kleene_chain in H2 as (xs & -> & Hxs).
+    cbn in Ht. destruct (extract_types xs) as [ts|] eqn:Ets; [|discriminate]. inversion Ht; subst.
+    rewrite (atom_canon _ _ _ _ H1), (members_canon (decl f) IH _ _ _ _ Hxs Ets), (atom_canon _ _ _ _ H3).
+    cbn. unfold members_str. now rewrite !sapp_assoc.
+Qed.
+
+(* an accepted input is the printed signature of its type with white space between tokens *)
+Theorem parse_canonical : forall s t, parse s = POk t -> unspace s = print t.
+Proof.
+  intros s t. rewrite parse_eq. unfold parse_fuel.
+  destruct (fst (decl (S (String.length s)) s)) as [root rest| | |] eqn:E; cbn; try discriminate.
+  destruct rest; [|discriminate]. cbn.
+  destruct root as [| | | |[|[|x| | |] []]]; try discriminate.
+  intro H. inversion H; subst. rewrite (decl_canon _ _ _ _ t E eq_refl). apply sapp_nil_r.
+Qed.
